@@ -117,7 +117,7 @@ def run_case(rng, idx, tier, lane, ctx):
     if kind == "first-step":
         while True:
             spec = GE.gen_events(rng, limits="default", time_dep=False, min_events=2)
-            theta = [rng.randint(1, 3) for _ in spec["params"]] if ints else GE.param_values(rng, spec)
+            theta = [rng.randint(1, 3) for _ in spec["params"]] if ints else GE.param_values(rng, spec, int_prob=0.0)
             x0 = GE.initial_state(rng, spec, lo=1, hi=12, boundary_prob=0.0)
             ref, V = S.numeric_V(spec, theta)
             tot, rates = S.total_rate(ref, x0, 0.0, theta)
